@@ -74,7 +74,9 @@ def structural(prop, extra):
     if prop in FRAME_FAMILY and "NOP" not in extras:
         fr, _rep, _prog = _frame()
         for o in fr:
-            if o["kind"] == "FRAME" and o["id"].split("/")[2].split(".")[0] in FRAME_FAMILY[prop]:
+            # FRAME (the key covers what is read) and GUARD / MONO (every mutator moves the counters of what it writes)
+            # only together exclude a stale value
+            if o["kind"] in ("FRAME", "GUARD", "MONO") and o["id"].split("/")[2].split(".")[0] in FRAME_FAMILY[prop]:
                 o2 = dict(o)
                 o2["id"] = o["id"].replace("C01/", prop + "/", 1)
                 out.append(o2)
@@ -106,7 +108,12 @@ def structural(prop, extra):
         out += inplace_obligations()
         out += fieldframe_obligations()
         out += c_stateless()
-    return out
+    seen, uniq = set(), []
+    for o in out:
+        if o["id"] not in seen:
+            seen.add(o["id"])
+            uniq.append(o)
+    return uniq
 
 
 # ---------------------------------------------------------------------------- C20 DIRECTIVES
